@@ -400,6 +400,7 @@ pub fn run(args: &[&str]) -> String {
             }
         }
         "hand" => op_hand(args[1], args[2].parse().unwrap(), args[3]),
+        "mreq" => crate::sess::op_mreq(args[1], args[2], args[3].parse().unwrap()),
         _ => panic!("unknown handler op"),
     }
 }
@@ -663,6 +664,12 @@ pub fn gen(r: &mut Rng, n: usize, flavor: &str) -> Vec<String> {
                 _ => r.below(1 << 21) as usize,
             };
             out.push(format!("left {}", len));
+        }
+    }
+    if flavor == "C09" {
+        // the manager's side of an upload: its answer to RecvRequest for every flag combination
+        for _ in 0..(n / 4) {
+            out.push(crate::sess::gen_mreq(r));
         }
     }
     while out.len() < n {
